@@ -664,6 +664,50 @@ func execMvcc(intents []string, st *Stats) (final, outs, oracle []string) {
 			kv := kvWords(w[2:])
 			out := s.iterate(tx, kv, fail, &final, &outs, line)
 			_ = out
+		case "xiter", "xget":
+			// a read (iterator creation + scan, or Get) that overlaps a memtable flush: the reader is
+			// parked on db.lock while the flusher's two steps run (badger.VerifReadAcrossFlush); it
+			// must see exactly what the same read sees without the flush (C01/C12). The flush is
+			// reported after the read as a derived event.
+			id, _ := strconv.Atoi(w[1])
+			tx := s.txns[id]
+			if tx == nil || tx.done {
+				emit(line, "err:discarded")
+				continue
+			}
+			pre := s.snapshotReads()
+			badger.VerifTakeEvents()
+			_, err := badger.VerifReadAcrossFlush(s.db, 15*time.Millisecond, func() {
+				if w[0] == "xiter" {
+					s.iterate(tx, kvWords(w[2:]), fail, &final, &outs, line)
+					return
+				}
+				key := unhx(w[2])
+				it, err := tx.t.Get(key)
+				var out string
+				if err != nil {
+					out = errKind(err)
+				} else if f, verr := fmtItem(it); verr != nil {
+					out = "err:value:" + strings.ReplaceAll(verr.Error(), " ", "_")
+				} else {
+					out = "found " + f
+				}
+				emit(line, out)
+				if len(key) > 0 {
+					if _, own := tx.pending[string(key)]; !own && out != "err:banned" {
+						tx.reads[string(key)] = true
+					}
+					s.judgeGet(tx, key, out, fail)
+				}
+			})
+			if err != nil {
+				fail("C12-flush-failed", "flush during a read failed: "+err.Error())
+			}
+			if s.emitEventsX(emit, fail, "", true) >= 0 {
+				s.judgeStable("flush during a read", pre, fail)
+				emit("dump", s.dump())
+				s.judgeStructure(fail)
+			}
 		case "commit":
 			id, _ := strconv.Atoi(w[1])
 			tx := s.txns[id]
@@ -1934,7 +1978,12 @@ func genMvccSession(rng *rand.Rand, st *Stats) []string {
 			txnKeys[id] = append(txnKeys[id], string(k))
 		case r < 57:
 			id := open[rng.Intn(len(open))]
-			ops = append(ops, fmt.Sprintf("get %d %s", id, hx(keys[rng.Intn(len(keys))])))
+			g := "get"
+			if rng.Intn(12) == 0 {
+				g = "xget" // the same Get while a memtable flush runs
+				st.Inc("read_across_flush")
+			}
+			ops = append(ops, fmt.Sprintf("%s %d %s", g, id, hx(keys[rng.Intn(len(keys))])))
 		case r < 70:
 			j := rng.Intn(len(open))
 			id := open[j]
@@ -2088,6 +2137,10 @@ func genMvccSession(rng *rand.Rand, st *Stats) []string {
 			}
 			if rng.Intn(8) == 0 {
 				o = fmt.Sprintf("iter %d iskey=1 prefix=%s seek=rewind rev=%d", id, hx(keys[rng.Intn(len(keys))]), 0)
+			}
+			if rng.Intn(8) == 0 {
+				o = "x" + o // the iterator is created while a memtable flush runs
+				st.Inc("read_across_flush")
 			}
 			ops = append(ops, o)
 		case r < 90:
